@@ -19,6 +19,8 @@ import (
 type subInfo struct {
 	subCall, subRet     int64
 	tracked             bool
+	trackNil            bool // Track returned nil: the scope was closed already
+	scope               int
 	unsubCall, unsubRet int64 // earliest known; 0 = never
 	recv                []Event
 	hasSnap             bool
@@ -36,12 +38,23 @@ type sendInfo struct {
 	nEnd       int
 }
 
+// closeIv is one SubscriptionScope.Close call (ret = 0: it has not returned).
+type closeIv struct {
+	scope     int
+	g         string
+	call, ret int64
+}
+
 type parsed struct {
-	subs      []*subInfo
-	sends     map[int]*sendInfo
-	order     []int // values by send-begin
-	closeCall int64
-	closeRet  int64
+	subs   []*subInfo
+	sends  map[int]*sendInfo
+	order  []int // values by send-begin
+	closes []*closeIv
+	// per scope: the earliest Close call and the earliest Close return of ANY
+	// caller. Once Close has returned to somebody the scope is closed for
+	// everybody: every subscription it tracked is unsubscribed.
+	closeCall map[int]int64
+	closeRet  map[int]int64
 }
 
 func minNZ(a, b int64) int64 {
@@ -55,7 +68,8 @@ func minNZ(a, b int64) int64 {
 }
 
 func parse(nsubs int, hist []Event) *parsed {
-	p := &parsed{sends: map[int]*sendInfo{}}
+	p := &parsed{sends: map[int]*sendInfo{}, closeCall: map[int]int64{}, closeRet: map[int]int64{}}
+	openClose := map[string]*closeIv{}
 	for i := 0; i < nsubs; i++ {
 		p.subs = append(p.subs, &subInfo{})
 	}
@@ -86,9 +100,16 @@ func parse(nsubs int, hist []Event) *parsed {
 			si.end, si.nsent = e.Seq, e.N
 			si.nEnd++
 		case KCloseCall:
-			p.closeCall = e.Seq
+			iv := &closeIv{scope: e.Val, g: e.G, call: e.Seq}
+			p.closes = append(p.closes, iv)
+			openClose[e.G] = iv
+			p.closeCall[e.Val] = minNZ(p.closeCall[e.Val], e.Seq)
 		case KCloseRet:
-			p.closeRet = e.Seq
+			if iv := openClose[e.G]; iv != nil && iv.scope == e.Val {
+				iv.ret = e.Seq
+				delete(openClose, e.G)
+			}
+			p.closeRet[e.Val] = minNZ(p.closeRet[e.Val], e.Seq)
 		}
 		if s == nil {
 			continue
@@ -98,7 +119,7 @@ func parse(nsubs int, hist []Event) *parsed {
 			s.subCall = e.Seq
 		case KSubRet:
 			s.subRet = e.Seq
-			s.tracked = e.N == 1
+			s.tracked, s.trackNil, s.scope = e.N == 1, e.N == 2, e.Val
 		case KUnsubCall:
 			s.unsubCall = minNZ(s.unsubCall, e.Seq)
 			if e.Val == 1 {
@@ -122,17 +143,16 @@ func parse(nsubs int, hist []Event) *parsed {
 			s.recv = append(s.recv, e)
 		}
 	}
-	// SubscriptionScope.Close unsubscribes every tracked subscription.
+	// SubscriptionScope.Close unsubscribes every tracked subscription: a Close
+	// call is an Unsubscribe call on each of them and the return of Close - to
+	// whichever caller, also one that found the scope being closed by somebody
+	// else - is the return of all those Unsubscribe calls.
 	for _, s := range p.subs {
 		if s.tracked {
-			if p.closeCall != 0 {
-				// also when Close was called before Track returned: the
-				// subscription may be unsubscribed at any moment from then on
-				s.unsubCall = minNZ(s.unsubCall, p.closeCall)
-			}
-			if p.closeRet != 0 {
-				s.unsubRet = minNZ(s.unsubRet, p.closeRet)
-			}
+			// also when Close was called before Track returned: the
+			// subscription may be unsubscribed at any moment from then on
+			s.unsubCall = minNZ(s.unsubCall, p.closeCall[s.scope])
+			s.unsubRet = minNZ(s.unsubRet, p.closeRet[s.scope])
 		}
 	}
 	return p
@@ -182,7 +202,11 @@ func Judge(nsubs int, hist []Event, complete bool) []string {
 			}
 			// (5b) delivered by a send that began after Unsubscribe had returned
 			if s.unsubRet != 0 && si.begin > s.unsubRet {
-				addf("(5) delivery after unsubscription: subscriber %d received %d (send began at seq %d) although Unsubscribe had returned at seq %d", k, e.Val, si.begin, s.unsubRet)
+				how := "Unsubscribe"
+				if s.tracked && s.unsubRet == p.closeRet[s.scope] {
+					how = fmt.Sprintf("Close of scope %d, which tracks it,", s.scope)
+				}
+				addf("(5) delivery after unsubscription: subscriber %d received %d (send began at seq %d) although %s had returned at seq %d", k, e.Val, si.begin, how, s.unsubRet)
 			}
 			// (4b) channel order must respect the real-time order of sends
 			if si.end != 0 && maxBeginVal >= 0 && si.end < maxBegin {
@@ -270,21 +294,74 @@ func Classify(nsubs int, hist []Event) map[string]bool {
 	for i := 0; i < len(vals) && !c["two-concurrent-senders"]; i++ {
 		for j := i + 1; j < len(vals); j++ {
 			a, b := p.sends[vals[i]], p.sends[vals[j]]
-			if a.sender != b.sender && overlaps(a.begin, a.end, b.begin, b.end) {
+			if a.sender != b.sender && isSender(a.sender) && isSender(b.sender) && overlaps(a.begin, a.end, b.begin, b.end) {
 				c["two-concurrent-senders"] = true
 				break
 			}
 		}
 	}
-	if p.closeCall != 0 {
+	for _, iv := range p.closes {
 		for _, v := range vals {
 			si := p.sends[v]
-			if overlaps(p.closeCall, p.closeRet, si.begin, si.end) {
+			if overlaps(iv.call, iv.ret, si.begin, si.end) {
 				c["scope-close-during-send"] = true
 				for _, s := range p.subs {
-					if s.tracked && s.subRet < si.begin && !has(s.recv, v) {
+					if s.tracked && s.scope == iv.scope && s.subRet < si.begin && !has(s.recv, v) {
 						c["scope-close-during-blocked-send"] = true
 					}
+				}
+			}
+		}
+	}
+	// the scope classes: concurrent Close calls and sends made once a Close
+	// has returned
+	tracks := map[int]bool{} // scope -> it tracked a subscription before its first Close returned
+	for _, s := range p.subs {
+		if s.tracked && (p.closeRet[s.scope] == 0 || s.subCall < p.closeRet[s.scope]) {
+			tracks[s.scope] = true
+		}
+		if s.trackNil {
+			c["scope:track-after-close"] = true
+		}
+	}
+	if len(p.closeCall) > 1 {
+		c["scope:several-scopes-closed"] = true
+	}
+	for i, a := range p.closes {
+		if !tracks[a.scope] {
+			continue
+		}
+		for _, b := range p.closes[i+1:] {
+			if a.scope != b.scope {
+				continue
+			}
+			c["scope:closed-twice"] = true
+			if !overlaps(a.call, a.ret, b.call, b.ret) {
+				continue
+			}
+			c["scope:concurrent-close"] = true
+			first, last := a.ret, b.ret
+			if last < first {
+				first, last = last, first
+			}
+			for _, v := range vals {
+				// Close had returned to one caller and not yet to the other
+				// one when this send began
+				if si := p.sends[v]; first < si.begin && si.begin < last {
+					c["scope:send-between-returns-of-concurrent-closes"] = true
+				}
+			}
+		}
+	}
+	for sc, ret := range p.closeRet {
+		if !tracks[sc] {
+			continue
+		}
+		for _, v := range vals {
+			if si := p.sends[v]; si.begin > ret {
+				c["scope:send-after-close-returned"] = true
+				if !isSender(si.sender) {
+					c["scope:closer-sends-after-its-close"] = true
 				}
 			}
 		}
@@ -312,8 +389,12 @@ func Classify(nsubs int, hist []Event) map[string]bool {
 					c["unsub-overlaps-send"] = true
 				}
 			}
-			if s.tracked && overlaps(p.closeCall, p.closeRet, si.begin, si.end) {
-				c["unsub-overlaps-send"] = true
+			if s.tracked {
+				for _, iv := range p.closes {
+					if iv.scope == s.scope && overlaps(iv.call, iv.ret, si.begin, si.end) {
+						c["unsub-overlaps-send"] = true
+					}
+				}
 			}
 			// the send was in flight when Unsubscribe was called, this
 			// subscriber was part of it, had stopped receiving with a full
@@ -330,12 +411,19 @@ func Classify(nsubs int, hist []Event) map[string]bool {
 		if s.hasSnap && s.snapN > 0 {
 			c["buffered-values-held-at-unsub"] = true
 		}
-		if len(s.unsubIntervals) > 0 && s.tracked && overlaps(s.unsubIntervals[0][0], s.unsubIntervals[0][1], p.closeCall, p.closeRet) {
-			c["scoped-self-unsub-during-close"] = true
+		if len(s.unsubIntervals) > 0 && s.tracked {
+			for _, iv := range p.closes {
+				if iv.scope == s.scope && overlaps(s.unsubIntervals[0][0], s.unsubIntervals[0][1], iv.call, iv.ret) {
+					c["scoped-self-unsub-during-close"] = true
+				}
+			}
 		}
 	}
 	return c
 }
+
+// isSender tells a sender goroutine (S<i>) from a closer that sends (C<c>).
+func isSender(g string) bool { return len(g) > 0 && g[0] == 'S' }
 
 func has(recv []Event, v int) bool {
 	for _, e := range recv {
